@@ -1,5 +1,7 @@
 """Re-verify a few functions under ANOTHER property's contracts inside a check (own registry and engine): used where a property rests
 on an obligation that is stated in another property's contract module, so that the obligation is re-discharged - not assumed - here."""
+import z3
+
 from . import smt
 from .contracts import Registry
 from .engine import Engine
@@ -20,6 +22,10 @@ def subverify(src, prop, module, keys, replay=None, why='', timeout_s=20, prefer
             eng.verify_fn(key)
         except Refuse as e:
             rows.append(dict(name=key + '#refused', ok=False, undecided=True, backend='z3', detail=f"refused: {e}"))
+        except (AttributeError, KeyError, IndexError, TypeError, z3.Z3Exception) as e:
+            # a contract lambda that cannot be evaluated on code that no longer has the shape it was written for: undecided, never a verdict
+            rows.append(dict(name=key + '#refused', ok=False, undecided=True, backend='z3',
+                             detail=f"contract could not be evaluated on this code: {type(e).__name__}: {e}"))
     if prefer_cvc5:
         import re
         for o in eng.obligations:
